@@ -530,7 +530,10 @@ class ExcFlow:
             if c.kind != "repo" or c.fn is None:
                 continue
             params = list(c.fn.params)
-            if c.fn.cls is not None and c.how != "basecall" and params:
+            if c.fn.cls is not None and c.how in (
+                    "cha", "method", "bound", "byname", "field", "ctor",
+                    "super") and params \
+                    and ".<locals>." not in c.fn.qualname:
                 params = params[1:]
             names = [params[i] for i in pos if i < len(params)] + [
                 k for k in kw if k in params]
